@@ -64,3 +64,47 @@ int rq_texts(const ref_queue_t * q, unsigned mask, unsigned want) {
     for (i = 0; i < q->count; i++) if (q->e[i].has_text && (q->e[i].flags & mask) == want) n++;
     return n;
 }
+
+/* ---- response readers -------------------------------------------------------------------------------- */
+static size_t read_nr1(const char * s, size_t n, long * val) {
+    size_t i = 0; int neg = 0; long v = 0; size_t digits = 0;
+    if (i < n && (s[i] == '-' || s[i] == '+')) { neg = s[i] == '-'; i++; }
+    while (i < n && s[i] >= '0' && s[i] <= '9' && digits < 12) { v = v * 10 + (s[i] - '0'); i++; digits++; }
+    if (!digits) return 0;
+    *val = neg ? -v : v;
+    return i;
+}
+static int is_line_end(const char * s, size_t n) {
+    return (n == 2 && s[0] == '\r' && s[1] == '\n') || (n == 1 && (s[0] == '\n' || s[0] == '\r'));
+}
+
+int rq_read_nr1_response(const char * resp, size_t n, long * value) {
+    size_t i = read_nr1(resp, n, value);
+    if (!i) return 0;
+    return is_line_end(resp + i, n - i);
+}
+
+int rq_read_error_response(const char * resp, size_t n, long * code, char * dst, size_t cap, size_t * dlen, size_t * rawlen) {
+    size_t i = read_nr1(resp, n, code), d = 0, raw = 0;
+    if (!i) return 0;
+    if (i >= n || resp[i] != ',') return 0;
+    i++;
+    if (i >= n || resp[i] != '"') return 0;
+    i++;
+    for (;;) {
+        if (i >= n) return 0;                 /* unterminated */
+        if (resp[i] == '"') {
+            if (i + 1 < n && resp[i + 1] == '"') { /* doubled quote = one quote character */
+                if (d >= cap) return 0;
+                dst[d++] = '"'; i += 2; raw += 2;
+                continue;
+            }
+            i++;                              /* closing quote */
+            break;
+        }
+        if (d >= cap) return 0;
+        dst[d++] = resp[i++]; raw++;
+    }
+    *dlen = d; *rawlen = raw;
+    return is_line_end(resp + i, n - i);
+}
